@@ -532,7 +532,24 @@ var fixed = []string{
 	"struct{ Impl }", "struct{ Impl Impl }", "struct{ byte }", "struct{ uint8 }", "struct{ A8 }", "struct{ A8 byte }", "struct{ AA }", "struct{ AA A }",
 	"struct{ N; B string }", "struct{ N N; B string }", "struct{ a int; Str }", "struct{ a int; Str Str }", "struct{ N `k:\"v\"` }", "struct{ N N `k:\"v\"` }",
 	"*struct{ N }", "*struct{ N N }", "[]struct{ ta.Template }", "[]struct{ Template ta.Template }", "func(struct{ N }) struct{ N N }", "func(struct{ N N }) struct{ N }",
+	// boundary values. A zero-length array is an array type like any other (only a NEGATIVE length stands for "unknown"): every
+	// length 0 / 1 / 2 / 4 over one element type, at the top and below every constructor, zero in either position of a nested array;
+	// identical zero-length arrays under several spellings; the empty struct / parameter list / result list / method set next to
+	// their one-member neighbours
+	"[0]int", "[1]int", "[4]int", "[0]A", "[0x0]int", "[0]N", "[0]string", "[0]byte", "[0]uint8", "[8]byte", "[0]any", "[0]interface{}",
+	"[0][2]int", "[0][3]int", "[2][0]int", "[2][3]int", "[0][0]int", "[0][1]int", "[1][0]int", "*[0]int", "*[2]int", "[][0]int", "[][2]int",
+	"func([0]int)", "func([2]int)", "func() [0]int", "func() [2]int", "struct{ a [0]int }", "struct{ a [2]int }", "struct{ _ [0]int; v int }", "struct{ _ [4]int; v int }",
+	"chan [0]int", "chan [2]int", "map[[0]int]int", "map[[2]int]int", "map[int][0]int", "map[int][2]int", "gen.L[[0]int]", "gen.L[[2]int]",
+	"[0]struct{}", "[1]struct{}", "[0]gen.L[int]", "[2]gen.L[int]", "[0]gen.L[string]", "[0]ta.Template", "[0]tb.Template", "[1]ta.Template",
+	"interface{ M([0]int) }", "interface{ M([2]int) }", "struct{ _ int }", "struct{ a struct{} }", "*struct{}", "[]struct{}", "[]interface{}",
+	"func() ()", "func(struct{})", "func() struct{}", "func(...struct{})", "interface{ interface{}; M() }", "map[struct{}]struct{}", "map[[0]int][0]int",
 }
+
+// the generic types themselves (what Scope.Lookup(name).Type() -- hence ctx.GetType(`pkg.Name`) -- gives for a generic declaration:
+// the origin type, no type arguments) next to their instantiations: identical to itself and to its counterpart of the other
+// type-check, to no instantiation
+var origins = [][2]string{{"example.com/c14/gen", "L"}, {"example.com/c14/gen", "Pair"}, {"example.com/c14/gen", "Getter"},
+	{"example.com/c14/a/tmpl", "Set"}, {"example.com/c14/b/tmpl", "Set"}, {"example.com/c14/pool", "TP1"}, {"example.com/c14/pool", "TP2"}}
 
 type out struct {
 	Mode      string     `json:"mode"`
@@ -780,6 +797,7 @@ func main() {
 		os.Exit(1)
 	}
 	ser := gtypes.NewSer(u1, u2)
+	isOrigin := map[int]bool{} // pool indices of the uninstantiated generic types (left out of the Implements section)
 	collect := func(u *gtypes.Universe) (ts []types.Type, names []string, hasTP []bool) {
 		sc := u.Pkgs["example.com/c14/pool"].Scope()
 		for i, e := range exprs {
@@ -794,6 +812,17 @@ func main() {
 				ts = append(ts, st.Field(i).Type())
 				names = append(names, fmt.Sprintf("%s.F%d: %s", g, i, st.Field(i).Type()))
 				hasTP = append(hasTP, true)
+			}
+		}
+		// the generic types themselves, and composites over them built with the go/types constructors (no source spells these)
+		for _, og := range origins {
+			ot := u.Pkgs[og[0]].Scope().Lookup(og[1]).Type()
+			nm := og[0][strings.LastIndex(og[0], "/")+1:] + "." + og[1]
+			for k, t := range []types.Type{ot, types.NewPointer(ot), types.NewSlice(ot)} {
+				ts = append(ts, t)
+				names = append(names, "origin "+[]string{"", "*", "[]"}[k]+nm+" (Scope.Lookup, no type arguments)")
+				hasTP = append(hasTP, false)
+				isOrigin[len(ts)-1] = true
 			}
 		}
 		// the untyped basic types (what go/types records for operands of constant expressions): identical to themselves only,
@@ -913,7 +942,7 @@ func main() {
 	for i := 0; i < n; i++ {
 		_, ok := t1[i].Underlying().(*types.Interface)
 		o.IsIface = append(o.IsIface, ok)
-		if ok && !hasTP[i] {
+		if ok && !hasTP[i] && !isOrigin[i] {
 			o.Ifaces = append(o.Ifaces, i)
 			if1 = append(if1, t1[i])
 			if2 = append(if2, t2[i])
